@@ -83,13 +83,68 @@
    run_at `O => RStop ADiverge`                 nesting deeper than 130 (call stack bounds it by 128)   not covered
    no_reenter AUnmodelled                       only in run_flat (re-entry cut off)      -               not part of [run]
 
-   Opcodes NOT covered by step_no_abort_partial and why:
+   Opcodes NOT covered by step_no_abort_partial (this file) and why:
      4  CallNative, 11 on a native function value : natives (re-entry, conversions, cyclic tables, AUnmodelled/fuel)
      32 GetProperty, 33 SetProperty, 36 ForEach, 39 NthRow, 40 AppendTable, 41 PopTable :
         key lookup = ==/hash of arbitrary keys, needs the acyclic-heap invariant over table CONTENTS (A-37),
         36 also needs "loop variable >= 0" in Debug builds
      43 SetUpvalue, 44 ReadUpvalue, 45 RegisterUpvalue : need heap_closed for closure/upvalue lists and C10 facts
-     22 Return / 46 CloseUpvalue are covered only when no upvalue is open. *)
+     22 Return / 46 CloseUpvalue are covered only when no upvalue is open.
+
+   ------------------------------------------------------------------------------------------------------
+   FINAL STATUS (C04VmProofs2.v .. C04VmProofs9.v, C04VmLink.v; statements in Properties/C04.v).
+   Invariants: step_pre2 (C04VmProofs3) = step_pre without the restrictions on comparisons / open upvalues /
+   native callees, plus heap_closed over objects and closure frames, open_ok (the open-upvalue list is a
+   duplicate-free chain of open upvalue objects), heap_acyclic (ranked tables, depth < eq_fuel - 1),
+   "ForEach counter >= 0 in Debug", "RegisterUpvalue captures an existing variable".
+   step_pre3 (C04VmProofs7) = vm_inv (the structural invariant, PRESERVED by every instruction:
+   step_preserves) + instruction pointer at an instruction start of a code_ok program (follows from C10:
+   C04VmLink.wellformed_code_ok) + side (acyclic heap, natives_simple, the two per-opcode conditions).
+
+   site                                              final status
+   step `_ => SStop AUB` (invalid opcode)             PROVED unreachable (code_ok: opcode <= 46)
+   operand reads None (all opcodes incl. 4 36 43 44 45)   PROVED (code_ok: operands inside the code)
+   "Call stack was empty" (11 19 20 21 35 36 43 44 45 46) PROVED (vm_inv: calls <> [], preserved)
+   dangling address: of_vres VUb, as_bool / to_i64 / vobj_len / hget None, TblUb, SUb in natives,
+        run_function NStop AUB                        PROVED (heap_closed, stack_closed; preserved)
+   i_43_44 / i_45 `_ => SStop AUB` (frame closure is not a closure)   PROVED (vm_inv: closure frames alive, preserved)
+   i_45 scount <= loc, "closure not found for capture", upvalue index out of range
+                                                      excluded by the HYPOTHESIS sd_reg / sq_reg (reg_upvalue_ok:
+                                                      a compiler guarantee that C10 wellformed does not state)
+   arith_op VPanic, i_36 i64_result None              never produced (wrapping arithmetic)
+   jump_target JPanic (28 29 30)                      PROVED (code_ok: jump operands >= 0, from C10)
+   i_36 `i < 0` in Debug                              excluded by the HYPOTHESIS sd_foreach / sq_foreach
+   ==, hash, PartialOrd: VCrash (12 13 14 15), tget / tinsert / tpop None, TCrash (32 33 36 39 40 41),
+        ACrash in make_row / to_array                 PROVED unreachable on heap_acyclic + heap_closed heaps
+                                                      (veq0_tot); a cyclic table DOES abort: cyclic_table_aborts (A-37)
+   i_40 TFuel (ADiverge)                              PROVED unreachable for every heap (pigeonhole, tappend_idx_not_fuel)
+   i_23 spush None                                    PROVED (stack invariant)
+   ClStop in close_upvalues_go (22 46): fuel, closed upvalue in the open list, dangling
+                                                      PROVED (open_ok + pigeonhole live_nodup_length; preserved,
+                                                      incl. the insertion done by RegisterUpvalue)
+   WStop in walk_open (45)                            PROVED (same)
+   call_native_fuel O => ADiverge                     PROVED unreachable under natives_simple (no native function VALUE
+                                                      names call1 try1 call0 rb1 __min __max __sort); without it
+                                                      call1(call1, call1) exhausts the 8 levels (the crate reports
+                                                      Stackoverflow there: the model is pessimistic)
+   native_body NStop AUB (conversions)                PROVED for every native of the menu
+   run_function `code_len = 0` APanic                 PROVED (instruction pointer inside the code)
+   run_function `reenter` RStop                       excluded by the HYPOTHESIS reenter_ok (contract of the nested
+                                                      run: no abort, ninv again, no object dies); NOT discharged by
+                                                      induction over the nesting depth
+   native_minmax / native_sorted / minmax_go / sort_keys NStop (incl. ACrash of vcmp, snapshot, make_row,
+        stable_sort, insert_all)                      PROVED unreachable (C04VmProofs6b.call_native_ok0), under
+                                                      reenter_ok for the key-function callbacks
+   loop `O => RStop ADiverge`                         PROVED (loop_no_abort: fuel >= st_rem, given re_paid; run_no_abort
+                                                      uses VmProofs.run_at_paid)
+   run_at `O => RStop ADiverge` (depth 130)           inside reenter_ok (hypothesis)
+   no_reenter AUnmodelled                             not part of [run]
+
+   Preservation of the non-structural condition heap_acyclic: every instruction except SetProperty, AppendTable
+   and the natives keeps it (C04VmProofs9.step_keeps_acyclic); those two keep it when key and value are ranked
+   below the instance (C04VmProofs8.set_property_ranked, append_table_ranked); the natives other than __min /
+   __max / __sort keep it (C04VmProofs6.call_native_ok); for those three it is not shown.  The loop-level theorems take "every dispatched instruction meets [side]" as a
+   hypothesis (sides_hold). *)
 From Coq Require Import NArith ZArith List Lia Bool.
 From Cao Require Import ListUtil Bits Stacks Vm VmProofs.
 Import ListNotations.
